@@ -92,6 +92,45 @@ class CompScenario(Scenario):
         self.callers[name] = at
         return at
 
+    # -- twin callers: a second, independent transaction calling the same input-less exclusive method -------
+    def twin(self, name, method):
+        """Several units may share one method.  For an exclusive method at most one of them is served per
+        cycle; a component that serves both (e.g. because the method silently became nonexclusive) hands one
+        element / identifier / permit to two owners."""
+        self.caller(name + "_twin", method)
+        self.twins = getattr(self, "twins", []) + [name]
+
+    def twin_stim(self, rng, stim, p=0.5):
+        for name in getattr(self, "twins", []):
+            stim[name + "_twin.en"] = int(rng.random() < p)
+        return stim
+
+    def fold_twins(self, stim, obs):
+        """Present the twin's call as a call of the primary caller (the oracle then needs no changes); both
+        served in one cycle is the violation."""
+        twins = getattr(self, "twins", [])
+        if not twins:
+            return stim, obs
+        stim, obs = dict(stim), dict(obs)
+        for name in twins:
+            t = name + "_twin"
+            pd, td = obs.get(f"{name}.done", 0), obs.get(f"{t}.done", 0)
+            if pd and td:
+                raise Violation("exclusive-method-served-two-callers",
+                                f"two independent callers of `{name}` were both served in one cycle", port=name)
+            if stim.get(f"{t}.en", 0):
+                self.hit("twin_caller_requested")
+                if stim.get(f"{name}.en", 0):
+                    self.hit("twin_callers_contend")
+            if td or (stim.get(f"{t}.en", 0) and not stim.get(f"{name}.en", 0)):
+                for k in list(obs):
+                    if k.startswith(t + "."):
+                        obs[name + k[len(t):]] = obs[k]
+                stim[f"{name}.en"] = 1
+                if td:
+                    self.hit("twin_caller_served")
+        return stim, obs
+
     def post_elab(self, tm):
         # `<name>.runnable`: the calling transaction is requested and everything it calls is ready and
         # accepts its arguments -- "the method is ready" as a caller experiences it.  (Method.ready of a
